@@ -2,7 +2,7 @@
    This file contains only statements closed by [exact] and their assumptions. *)
 From Coq Require Import List ZArith Bool.
 Import ListNotations.
-From Verif Require Import Val CounterSyntax ClassCounters Counters NumberingSpec CountersProofs NumberingProofs.
+From Verif Require Import Val CounterSyntax FormatParse ClassCounters Counters NumberingSpec CountersProofs FormatParseProofs NumberingProofs.
 Local Open Scope Z_scope.
 
 (* M1: stepping a counter resets every counter declared within it, transitively -- for every store (a dict: unique keys) whose
@@ -123,6 +123,50 @@ Theorem C08_enumerate_items_count :
     exists ms, number_doc cls depth (map lev_event ls) = Ok (ms, item_outs nums).
 Proof. exact enumerate_items_count. Qed.
 Print Assumptions C08_enumerate_items_count.
+
+(* The format strings of \the<counter> macros.  TheCounter.invoke's two regular-expression passes are part of the Model
+   (Model/FormatParse.v: $name -> ${name}; then ${ name }, ${name.attr} references, everything else literal text).
+   Parsing is a left inverse of printing, for EVERY well-formed format of any length: literal pieces non-empty, without "$" and
+   not adjacent, references with a non-empty \w+ name and one of the six Counter properties (or none). *)
+Theorem C08_parse_print_roundtrip : forall f, wf_fmt f -> parse_format (print_fmt f) = f.
+Proof. exact parse_print_roundtrip. Qed.
+Print Assumptions C08_parse_print_roundtrip.
+
+(* the short form: "$name" followed by a non-word character (or the end) is "${name}" *)
+Theorem C08_dollar_short_form :
+  forall w r, word_name w -> starts_word r = false -> parse_format (36 :: w ++ r) = parse_format (36 :: 123 :: w ++ 125 :: r).
+Proof. exact dollar_short_form. Qed.
+
+(* the strings built at run time: Context.newcounter's '${%s}' % name and \newtheorem's '${the%s}.${%s}' % (within, name)
+   parse, for all \w+ names, to the own-counter reference and to \the<within> "." own counter *)
+Theorem C08_default_format_parse : forall nm, word_name nm -> parse_format (default_format_string nm) = [PRef nm None].
+Proof. exact default_format_parse. Qed.
+Theorem C08_theorem_format_parse :
+  forall w nm, word_name w -> word_name nm ->
+    parse_format (theorem_format_string w nm) = [PRef ([116; 104; 101] ++ w) None; PLit [46]; PRef nm None].
+Proof. exact theorem_format_parse. Qed.
+
+(* every format string of article / report / book and of their \appendix, regenerated from the source on every run together
+   with its parse by Python's re, is parsed to the same thing by the Model's scanner; and every \the<counter> of a freshly
+   loaded class carries the parse of one of these strings *)
+Theorem C08_class_formats_parse : forall s f, In (s, f) gen_format_strings -> parse_format s = f.
+Proof. exact class_formats_parse. Qed.
+Theorem C08_class_thes_from_source :
+  forall cls k f t, (cls = 0 \/ cls = 1 \/ cls = 2) -> In (k, (f, t)) (m_thes (init_state cls)) ->
+    exists s, In (s, f) gen_format_strings /\ parse_format s = f.
+Proof. exact class_thes_from_source. Qed.
+
+Example C08_format_nonvacuous :
+  (* "${thesection}.${thm}-$x ${ eq.Roman }$" *)
+  wf_fmt [PRef [116; 104; 101; 115] None; PLit [46]; PRef [116; 104; 109] None; PLit [45]; PRef [120] None; PLit [32];
+          PRef [101; 113] (Some RRoman); PLit [33]] /\
+  parse_format [36; 120; 46; 36; 123; 32; 121; 46; 97; 108; 112; 104; 32; 125; 36; 123; 122; 46; 125; 36] =
+    [PRef [120] None; PLit [46]; PRef [121] (Some Ralph); PLit [36; 123; 122; 46; 125; 36]] /\
+  word_name [116; 104; 109; 50] /\ gen_format_strings <> [].
+Proof.
+  split; [cbn; repeat split; try discriminate; try (intros [H|[]]; discriminate); exact I|].
+  split; [vm_compute; reflexivity|]. split; [split; [discriminate | reflexivity] | discriminate].
+Qed.
 
 (* non-vacuity *)
 Example C08_nonvacuous :
